@@ -382,6 +382,10 @@ def graph(name):
         for u, v, w in [(0, 1, 1.0), (1, 2, 0.5), (2, 3, 2.0), (3, 4, 1.0), (1, 3, 0.5)]:
             G.add_edge(u, v, w=w, kind="contact")
         return G
+    if name == "P5i":     # P5 plus an isolated node: a degree-0 class
+        G = graph("P5")
+        G.add_node(97, g=1.0, label="n97")
+        return G
     if name == "K4":      # regular graph, 4 nodes
         G = nx.Graph(name="K4")
         for u in [2, 0, 3, 1]:
@@ -890,7 +894,7 @@ def _special_builders(tier):
                     add(entry, "%s/%s/full=%d" % (g, var, full), fn)
     # Ks given explicitly (observed degrees only), as the from_graph wrappers do
     for entry, with_rec in (("SIS_heterogeneous_pairwise", False), ("SIR_heterogeneous_pairwise", True)):
-        for g in graphs:
+        for g in graphs + ["P5i"]:
             for full in fulls:
                 def fn(entry=entry, with_rec=with_rec, g=g, full=full):
                     d = base(g, with_rec)
@@ -910,6 +914,13 @@ def _special_builders(tier):
                     kw["Ks"] = Ks
                     return kw
                 add(entry, "%s/Ks/full=%d" % (g, full), fn)
+
+                def fn2(fn=fn):
+                    # the degrees as a FLOAT array (np.asarray would alias it) - graphs with an isolated node put degree 0 in it
+                    kw = fn()
+                    kw["Ks"] = np.array(kw["Ks"], dtype=float)
+                    return kw
+                add(entry, "%s/Ks-float/full=%d" % (g, full), fn2)
 
     # SIR_super_compact_pairwise, EBCM family: PGF callables -------------------------
     for g in graphs:
@@ -1157,6 +1168,11 @@ def _special_builders(tier):
                                 IC = collections.defaultdict(lambda: "S")
                                 for u in inf:
                                     IC[u] = "I"
+                                if model in ("SIS", "SIRS0"):
+                                    # an initial condition prepared for a larger population: more keys than G has nodes,
+                                    # yet some nodes of G are left to the default
+                                    for extra in range(G.order() + 3):
+                                        IC[("elsewhere", extra)] = "S"
                             kw = collections.OrderedDict(G=G, spontaneous_transition_graph=H, nbr_induced_transition_graph=J,
                                                          IC=IC, return_statuses=statuses, tmax=TMAX)
                             if model == "SEIRf":
